@@ -1,8 +1,36 @@
+from common import STD
 PROPERTY = "C03"
-EXPLANATION = "distributeFlows executed symbolically for all numbers of parked tokens and outgoing flows in the bound."
-ASSUMPTIONS = []
+EXPLANATION = ("distributeFlows for all numbers of parked tokens / outgoing flows; one inductive step of the gateway's counter "
+               "logic from an arbitrary valid state; the real parallel gateway (newParallelGateway, run, NextAction, flowWhenReady) "
+               "with N concurrently arriving tokens and R consecutive activations under a symbolic scheduler.")
+ASSUMPTIONS = ["upstream tokens are harness goroutines calling the real NextAction (the flow loop itself is checked in C01/C04)",
+               "tracer replaced by the synchronous stub (contract established by C09)"]
+EO = ["nothing is released before a token has arrived on every incoming flow",
+      "every arrived token is answered once all have arrived (none waits forever)",
+      "each outgoing flow receives exactly one token per activation",
+      "nothing is carried into the next activation"]
+
+
+def proto(n, m, r, tiers, K=80):
+    return dict(name="C03.c gateway %dx%d R%d" % (n, m, r), entry="VerifC03c_%dx%d_R%d" % (n, m, r), K=K, reach=["quiescent"],
+                overrides=STD, tiers=tiers, expect_obligations=EO,
+                bounds="N=%d incoming, M=%d outgoing, %d consecutive activations, all arrival orders and interleavings" % (n, m, r))
+
+
 SCENARIOS = [
     dict(name="C03.a distributeFlows", entry="VerifC03a_Distribute", K=40, reach=["built", "checked"], require_native=True,
          bounds="A=len(awaiting) in 0..4, F=len(flows) in 0..4 (symbolic)",
          expect_obligations=["no outgoing flow lost", "flows handed out in order, no duplicates"]),
+    dict(name="C03.b counter step (inductive)", entry="VerifC03b_CounterStep", K=40, reach=["state built"], require_native=True,
+         bounds="N in 1..4, reported in 0..N-1 (symbolic pre-state)",
+         expect_obligations=["release resets the gateway", "release answers every parked token", "nothing is sent before the last arrival"]),
+    proto(1, 1, 2, ("quick", "thorough")),
+    proto(2, 1, 2, ("quick", "thorough")),
+    proto(1, 2, 2, ("quick", "thorough")),
+    proto(2, 2, 2, ("quick", "thorough")),
+    proto(3, 2, 2, ("thorough",), K=120),
+    proto(2, 3, 2, ("thorough",), K=120),
+    proto(3, 1, 2, ("thorough",), K=120),
+    proto(1, 3, 2, ("thorough",), K=120),
+    proto(3, 3, 2, ("thorough",), K=140),
 ]
